@@ -63,8 +63,8 @@ const protoFile = "syntax = \"proto3\";\n\npackage test;\noption go_package = \"
 
 // index in this table = `which` of the generic streams
 var plugins = []pluginDef{
-	0: {"add_file_name", []string{`{}`, `{"field":"a.b"}`, `{"field":"log"}`}, ""},
-	1: {"add_host", []string{`{}`, `{"field":"a"}`}, ""},
+	0: {"add_file_name", []string{`{}`, `{"field":"a.b"}`, `{"field":"log"}`}, "C13"},
+	1: {"add_host", []string{`{}`, `{"field":"a"}`}, "C13"},
 	2: {"cardinality", []string{
 		`{"key":["service"],"fields":["level"],"limit":2,"action":"discard"}`,
 		`{"key":["a.b","service"],"fields":["message","level"],"limit":1,"action":"remove_fields","metric_prefix":"x"}`,
@@ -73,20 +73,20 @@ var plugins = []pluginDef{
 		`{"key":["a.b","a_b"],"fields":["level"],"limit":5}`,
 		// ttl within reach of the clock directive (2 ms) of the cardinality-ttl stream; "0s": everything older than now expires
 		`{"key":["service"],"fields":["level"],"limit":1,"ttl":"1s","action":"discard"}`,
-		`{"key":["service"],"fields":["message","level"],"limit":2,"ttl":"0s","action":"remove_fields"}`}, ""},
+		`{"key":["service"],"fields":["message","level"],"limit":2,"ttl":"0s","action":"remove_fields"}`}, "C13"},
 	3: {"convert_date", []string{`{}`,
 		`{"field":"time","source_formats":["rfc3339nano","rfc3339","unixtime"],"target_format":"rfc3339","remove_on_fail":true}`,
 		`{"field":"a.b","source_formats":["2006-01-02","unixtimemilli","ansic"],"target_format":"unixtimenano"}`,
-		`{"field":"ts","source_formats":["unixtime"],"target_format":"2006/01/02 15:04:05"}`}, ""},
+		`{"field":"ts","source_formats":["unixtime"],"target_format":"2006/01/02 15:04:05"}`}, "C13"},
 	4: {"convert_log_level", []string{`{}`,
 		`{"style":"string","default_level":"info","remove_on_fail":true}`,
 		`{"field":"a.b","style":"number","remove_on_fail":true}`,
-		`{"field":"level","style":"string","default_level":"nonsense"}`}, ""},
+		`{"field":"level","style":"string","default_level":"nonsense"}`}, "C13"},
 	5: {"convert_utf8_bytes", []string{
 		`{"fields":["message"]}`,
 		`{"fields":["message","log","a.b"]}`,
 		`{"fields":["log","message","a.b","service"],"replace_non_graphic":true}`}, "C13"},
-	6: {"debug", []string{`{}`, `{"interval":"1s","first":2,"thereafter":3,"message":"sample"}`}, ""},
+	6: {"debug", []string{`{}`, `{"interval":"1s","first":2,"thereafter":3,"message":"sample"}`}, "C13"},
 	7: {"decode", []string{
 		`{"field":"log"}`,
 		`{"field":"log","decoder":"json","prefix":"p_","keep_origin":true,"log_decode_error_mode":"withnode"}`,
@@ -99,8 +99,8 @@ var plugins = []pluginDef{
 		`{"field":"log","decoder":"csv","params":{"columns":["a","b","c"],"delimiter":",","invalid_line_mode":"continue"}}`,
 		`{"field":"a.b","decoder":"csv","params":{"prefix":"col","delimiter":";"}}`,
 		`{"field":"log","decoder":"protobuf","prefix":"p_","params":{"proto_message":"MyMessage","proto_file":` + jsonStr(protoFile) + `}}`}, "C12"},
-	8: {"discard", []string{`{}`}, ""},
-	9: {"flatten", []string{`{"field":"a","prefix":"pre_"}`, `{"field":"a.b"}`, `{"field":"log","prefix":"log."}`}, ""},
+	8: {"discard", []string{`{}`}, "C13"},
+	9: {"flatten", []string{`{"field":"a","prefix":"pre_"}`, `{"field":"a.b"}`, `{"field":"log","prefix":"log."}`}, "C13"},
 	10: {"hash", []string{
 		`{"fields":[{"field":"message","format":"no"}],"result_field":"hash"}`,
 		`{"fields":[{"field":"a.b","format":"no","max_size":3},{"field":"message","format":"normalize","max_size":40}],"result_field":"a.hash"}`,
@@ -118,8 +118,8 @@ var plugins = []pluginDef{
 		`{"field":"log","templates":["go_panic","cs_exception","go_data_race"],"max_event_size":50}`,
 		`{"field":"message","templates":["cs_exception"]}`}, "C15"},
 	13: {"json_decode", []string{`{"field":"log"}`, `{"field":"a.b","prefix":"p_","log_json_parse_error_mode":"withnode"}`,
-		`{"field":"message","prefix":"m.","log_json_parse_error_mode":"erronly"}`}, ""},
-	14: {"json_encode", []string{`{"field":"a"}`, `{"field":"a.b"}`, `{"field":"items"}`, `{"field":"message"}`}, ""},
+		`{"field":"message","prefix":"m.","log_json_parse_error_mode":"erronly"}`}, "C13"},
+	14: {"json_encode", []string{`{"field":"a"}`, `{"field":"a.b"}`, `{"field":"items"}`, `{"field":"message"}`}, "C13"},
 	15: {"json_extract", []string{
 		`{"field":"log","extract_field":"a.b"}`,
 		`{"field":"log","extract_fields":["a","b.c","b.d","message","level"],"prefix":"x_"}`,
@@ -151,16 +151,16 @@ var plugins = []pluginDef{
 		`{"fields":["level","log"],"mode":"block","target":"t"}`,
 		`{"fields":["a.b","items"],"mode":"allow","target":"a.c.d"}`,
 		`{"fields":["a"],"mode":"allow","target":"a.b"}`,
-		`{"fields":[],"mode":"block","target":"message"}`}, ""},
-	20: {"parse_es", []string{`{}`}, ""},
+		`{"fields":[],"mode":"block","target":"message"}`}, "C13"},
+	20: {"parse_es", []string{`{}`}, "C13"},
 	21: {"parse_re2", []string{
 		`{"field":"log","re2":"(?P<date>[\\d]{4}-[\\d]{2}-[\\d]{2} [\\d]{2}:[\\d]{2}:[\\d]{2} GMT) \\[(?P<pid>[\\d]+)\\] => \\[(?P<pid_message_number>[\\d-]+)\\] client=(?P<client>[^,]*),db=(?P<db>[^,]*),user=(?P<user>[^,]*) (LOG|HINT):  (?P<message>.+)"}`,
 		`{"field":"message","re2":"(?P<a>x)?(?P<b>y)?(z)","prefix":"p_"}`,
 		`{"field":"a.b","re2":"(?P<message>.*)"}`}, "C13"},
 	22: {"remove_fields", []string{`{"fields":["a.b","message"]}`, `{"fields":["level","a","a.b","items"]}`}, "C18"},
 	23: {"rename", []string{`{"a":"b","message":"msg"}`, `{"override":"true","a.b":"level","_override":"x","log":"message"}`,
-		`{"a.b":"a","level":"a"}`}, ""},
-	24: {"set_time", []string{`{}`, `{"field":"time","format":"unixtime","override":false}`, `{"field":"a","format":"2006-01-02"}`}, ""},
+		`{"a.b":"a","level":"a"}`}, "C13"},
+	24: {"set_time", []string{`{}`, `{"field":"time","format":"unixtime","override":false}`, `{"field":"a","format":"2006-01-02"}`}, "C13"},
 	25: {"split", []string{`{"field":"items"}`, `{"field":"a.b"}`, `{"field":"log"}`}, "C13"},
 	26: {"throttle", []string{
 		`{"throttle_field":"service","default_limit":3,"bucket_interval":"1m","buckets_count":3,"time_field":"time"}`,
